@@ -155,7 +155,9 @@ def run_case(ctx, P, stream, idx):
                 continue
             # absorption: the parsed types/defaults are the generated ones, and carry no prose
             P.monitor("conversion.absorption.checked")
-            prose = hdr + header_lines(parts["footer"])
+            # sentence-like prose lines only: a doctest output line such as `2` is a substring of any type/default
+            # that contains that digit (Literal member 'v2_beta') and would make the absorption test a coincidence
+            prose = [l for l in hdr + header_lines(parts["footer"]) if len(l) >= 10 and " " in l]
             gen = {p[0]: p for p in params}
             entries = list((ir.get("params") or {}).items())
             if ir.get("returns"):
